@@ -599,15 +599,19 @@ def checker_pairs(seed: int, n: int, all_zoo: bool = False):
                     break
     # directed: every edge value of every XSD type (the zoo) changed in its last digit / unit
     from vf import gen as _gen
-    za = _gen.Gen(random.Random("C20zoo"), max_depth=3).zoo_submodel()
+    def _zoo():
+        g_ = _gen.Gen(random.Random("C20zoo"), max_depth=3)
+        g_.no_nan = True                     # NaN != NaN: two files with a NaN never compare equal (neutral zone)
+        return g_.zoo_submodel()
+    za = _zoo()
+    out.append((_zoo(), _zoo(), None))       # the zoo compares equal to itself
     k_ = 0
     for el in list(za.submodel_element):
         if type(el).__name__ == "Property" and bump(el.value) is not None:
             k_ += 1
-            if not all_zoo and k_ % 8 != seed % 8 and type(el.value).__name__ != "Decimal":
+            if not all_zoo and k_ % 16 != seed % 16 and type(el.value).__name__ != "Decimal":
                 continue                      # an eighth of them per seed (all of them over eight seeds; every one in the thorough tier)
-            zb = _gen.Gen(random.Random("C20zoo"), max_depth=3).zoo_submodel()
-            zc = _gen.Gen(random.Random("C20zoo"), max_depth=3).zoo_submodel()
+            zb, zc = _zoo(), _zoo()
             tgt = zc.get_referable(el.id_short)
             try:
                 tgt.value = bump(tgt.value)
